@@ -57,8 +57,19 @@ func (w *world) registryTxs() []txT {
 	swap("node0 swap p2p<->vrf", func(d *node.Node) { d.P2P.ID, d.VRF.ID = d.VRF.ID, d.P2P.ID })
 	swap("node0 swap tls<->vrf", func(d *node.Node) { d.TLS.PubKey, d.VRF.ID = d.VRF.ID, d.TLS.PubKey })
 	swap("node0 rotate p2p->tls->vrf->p2p", func(d *node.Node) { d.P2P.ID, d.TLS.PubKey, d.VRF.ID = d.VRF.ID, d.P2P.ID, d.TLS.PubKey })
-	swap("node0 p2p=node1.p2p", func(d *node.Node) { d.P2P.ID = k.Nodes[1].P2PSigner.Public() })
-	swap("node0 vrf=node1.vrf", func(d *node.Node) { d.VRF.ID = k.Nodes[1].VRFSigner.Public() })
+	swap("node0 p2p=node1.p2p (unsigned by it)", func(d *node.Node) { d.P2P.ID = k.Nodes[1].P2PSigner.Public() })
+	// keys of another registered node, with that key's signature (one operator controls both nodes)
+	{
+		d := k.NodeDescriptor(0, 0, 6, node.RoleValidator)
+		d.P2P.ID = k.Nodes[1].P2PSigner.Public()
+		ts = append(ts, nodeTx("node0 p2p=node1.p2p", d, []signature.Signer{n0.NodeSigner, k.Nodes[1].P2PSigner, n0.ConsensusSigner, n0.VRFSigner, n0.TLSSigner}, n0.NodeSigner))
+		d2 := k.NodeDescriptor(0, 0, 6, node.RoleValidator)
+		d2.VRF.ID = k.Nodes[1].VRFSigner.Public()
+		ts = append(ts, nodeTx("node0 vrf=node1.vrf", d2, []signature.Signer{n0.NodeSigner, n0.P2PSigner, n0.ConsensusSigner, k.Nodes[1].VRFSigner, n0.TLSSigner}, n0.NodeSigner))
+		d3 := k.NodeDescriptor(0, 0, 6, node.RoleValidator)
+		d3.TLS.PubKey = k.Nodes[2].TLSSigner.Public()
+		ts = append(ts, nodeTx("node0 tls=node2.tls", d3, []signature.Signer{n0.NodeSigner, n0.P2PSigner, n0.ConsensusSigner, n0.VRFSigner, k.Nodes[2].TLSSigner}, n0.NodeSigner))
+	}
 	swap("node0 p2p=own tls (duplicate)", func(d *node.Node) { d.P2P.ID = d.TLS.PubKey })
 	// fresh keys for one role (spare identity 4 provides unused keys)
 	{
